@@ -4,9 +4,12 @@ From OQ3 Require Import gen.Templates Model.Accept.
 Import ListNotations.
 
 Lemma templates_accepted :
-  forallb (fun c => forallb (fun i => k_c04_rejected i || k_ctx_empty c i || accepted_in c i) ids) ctx_ids = true.
+  forallb (fun c => forallb (fun i => k_c04_rejected i || k_ctx_empty c i || k_box_top c i || accepted_in c i) ids) ctx_ids = true.
 Proof. vm_compute. reflexivity. Qed.
 Lemma known_rejected_everywhere :
   forallb (fun c => forallb (fun i => negb (k_c04_rejected i) || negb (accepted_in c i)) ids) ctx_ids = true.
 Proof. vm_compute. reflexivity. Qed.
 
+Lemma box_needs_semicolon_refuted :
+  accepted_in 0 T_box_stmt = false /\ accepted_in 3 T_box_stmt = false /\ accepted_in 4 T_box_stmt = true.
+Proof. vm_compute. auto. Qed.
